@@ -431,10 +431,79 @@ static void probe_dfan_stale_dir(void)
     DFANclear();
 }
 
+
+/* several files through the single-file interface WITHOUT DFANclear in between, including calls on files that do not
+ * exist yet (the open fails) and are created by a later DFANputlabel: DFAN keeps one directory per file NAME (Lastfile),
+ * every file must be served from its own annotations.  Implementation oracle only (shadow per file). */
+static void probe_dfan_multi(void)
+{
+    enum { NF = 3, NO = 6 };
+    static char pa[NF][512];
+    struct { int has; char text[48]; int hasd; char desc[48]; } sh[NF][NO];
+    int exists[NF] = {0, 0, 0};
+    memset(sh, 0, sizeof sh);
+    for (int i = 0; i < NF; i++) { char nm[32]; snprintf(nm, sizeof nm, "m%d.hdf", i); snprintf(pa[i], sizeof pa[i], "%s", hk_tmp(nm)); remove(pa[i]); }
+    DFANclear();
+    int steps = (int)hk_range(10, 50);
+    for (int st = 0; st < steps; st++) {
+        int f = (int)hk_range(0, NF - 1), o = (int)hk_range(0, NO - 1), act = (int)hk_range(0, 9);
+        uint16 tag = (uint16)(700 + o % 2), ref = (uint16)(1 + o / 2);
+        char rb[64];
+        if (act < 3) { /* put (creates the file when needed) */
+            char t[48]; int n = (int)hk_range(1, 30); for (int i = 0; i < n; i++) t[i] = (char)hk_range(33, 126); t[n] = 0;
+            int isd = hk_chance(30);
+            int r = isd ? DFANputdesc(pa[f], tag, ref, t, n) : DFANputlabel(pa[f], tag, ref, t);
+            if (r == FAIL) { hk_fail("dfan-multi-put", "DFANput%s(file %d, %d/%d) failed (file %s)", isd ? "desc" : "label", f, tag, ref, exists[f] ? "exists" : "new"); continue; }
+            exists[f] = 1;
+            if (isd) { sh[f][o].hasd = 1; strcpy(sh[f][o].desc, t); } else { sh[f][o].has = 1; strcpy(sh[f][o].text, t); }
+            hk_stat("dfan_multi_put", 1);
+        }
+        else if (act < 6) { /* length query; on a file that does not exist the open fails */
+            int isd = hk_chance(30);
+            int32 l = isd ? DFANgetdesclen(pa[f], tag, ref) : DFANgetlablen(pa[f], tag, ref);
+            int has = isd ? sh[f][o].hasd : sh[f][o].has;
+            const char *w = isd ? sh[f][o].desc : sh[f][o].text;
+            if (!exists[f]) hk_stat("dfan_multi_failed_open", 1);
+            if (!has && l != FAIL) hk_fail("dfan-multi-phantom", "DFANget%slen(file %d, %d/%d) = %d but the object has none in THIS file", isd ? "desc" : "lab", f, tag, ref, (int)l);
+            else if (has && l != (int32)strlen(w)) hk_fail("dfan-multi-len", "DFANget%slen(file %d, %d/%d) = %d, written %d", isd ? "desc" : "lab", f, tag, ref, (int)l, (int)strlen(w));
+        }
+        else if (act < 9) { /* read */
+            int isd = hk_chance(30);
+            int has = isd ? sh[f][o].hasd : sh[f][o].has;
+            const char *w = isd ? sh[f][o].desc : sh[f][o].text;
+            memset(rb, 0, sizeof rb);
+            int r = isd ? DFANgetdesc(pa[f], tag, ref, rb, 60) : DFANgetlabel(pa[f], tag, ref, rb, 60);
+            if (!exists[f]) hk_stat("dfan_multi_failed_open", 1);
+            if (!has && r != FAIL) hk_fail("dfan-multi-phantom", "DFANget%s(file %d, %d/%d) succeeds (\"%.40s\") but the object has none in THIS file", isd ? "desc" : "label", f, tag, ref, rb);
+            else if (has && (r == FAIL || memcmp(rb, w, strlen(w)))) hk_fail("dfan-multi-data", "DFANget%s(file %d, %d/%d) = %d \"%.40s\", written \"%s\"", isd ? "desc" : "label", f, tag, ref, r, rb, w);
+        }
+        else { DFANclear(); hk_stat("dfan_multi_clear", 1); }
+    }
+    DFANclear();
+    /* what the multi-file interface finds afterwards */
+    for (int f = 0; f < NF; f++) if (exists[f]) {
+        int32 fid = Hopen(pa[f], DFACC_READ, 0);
+        if (fid == FAIL) { hk_fail("dfan-multi-reopen", "file %d cannot be opened", f); continue; }
+        int32 a = ANstart(fid);
+        for (int o = 0; o < NO; o++) {
+            uint16 tag = (uint16)(700 + o % 2), ref = (uint16)(1 + o / 2);
+            int nl = ANnumann(a, AN_DATA_LABEL, tag, ref), nd = ANnumann(a, AN_DATA_DESC, tag, ref);
+            if (nl != sh[f][o].has) hk_fail("dfan-multi-an-count", "file %d object %d/%d: %d labels, DFAN wrote %d", f, tag, ref, nl, sh[f][o].has);
+            if (nd != sh[f][o].hasd) hk_fail("dfan-multi-an-count", "file %d object %d/%d: %d descriptions, DFAN wrote %d", f, tag, ref, nd, sh[f][o].hasd);
+            if (nl == 1) { int32 id; char rb[64]; memset(rb, 0, sizeof rb);
+                if (ANannlist(a, AN_DATA_LABEL, tag, ref, &id) == 1 && ANreadann(id, rb, 60) != FAIL) { if (strcmp(rb, sh[f][o].text)) hk_fail("dfan-multi-an-data", "file %d object %d/%d label \"%.40s\", written \"%s\"", f, tag, ref, rb, sh[f][o].text); }
+                else hk_fail("dfan-multi-an-data", "file %d object %d/%d label unreadable through AN", f, tag, ref); }
+        }
+        ANend(a); Hclose(fid);
+    }
+    for (int i = 0; i < NF; i++) remove(pa[i]);
+}
+
 static void run_case(int k)
 {
     path = hk_tmp("a.hdf");
     nsa = 0;
+    if (k % 50 >= 12 && k % 50 <= 15) { printf("INFO dfan-multi-file\n"); probe_dfan_multi(); return; }
     if (k % 50 == 7) { printf("INFO create-first\n"); probe_create_first(); return; }
     if (probes_on && k % 50 == 8) { printf("INFO probe empty-text\n"); probe_empty_text(); return; }
     if (k % 50 == 9) { printf("INFO maxlen-1\n"); probe_maxlen1(); return; }
